@@ -127,3 +127,13 @@ func (s *HASyncer) BroadcastHeartbeatForVerif() *SyncMessage {
 	s.broadcastToClients(msg)
 	return msg
 }
+
+// ClientCountForVerif returns the number of registered stream client channels.
+func (s *HASyncer) ClientCountForVerif() int {
+	s.sseClientsMu.RLock()
+	defer s.sseClientsMu.RUnlock()
+	return len(s.sseClients)
+}
+
+// PendingChangesForVerif returns the number of changes queued by PushChange and not yet taken by broadcastLoop.
+func (s *HASyncer) PendingChangesForVerif() int { return len(s.pendingChanges) }
